@@ -118,8 +118,22 @@ Fixpoint walk (fuel : nat) (G : graph) (stack : list str) (out : list str) : res
       end
   end.
 
-Definition edge_count (G : graph) : nat := fold_left (fun n e => n + length (snd e))%nat G O.
-Definition walk_fuel (G : graph) : nat := (S (S (edge_count G)) * S (S (edge_count G)))%nat.
+(* The fuel of a run.  A stack without a visited set pops once per PATH of the table that starts at the
+   class it was started from (a class reached along two inheritance paths is expanded twice), so the
+   model gives every run the largest number of paths that start at a class of the table — [graph_bound],
+   computed by [cost] (paths from c, cut off below depth d; the depth bound is the number of rows of the
+   table: a chain of an acyclic table visits distinct rows).  Theory3.v: on an acyclic table this is
+   exactly enough ([walk_exact], [fuel_suffices]); on a cyclic one the walk answers Err. *)
+Fixpoint cost (d : nat) (G : graph) (c : str) {struct d} : nat :=
+  match map_get str_eqb c G with
+  | None => 1%nat
+  | Some ys => match d with
+               | O => 1%nat
+               | S d' => S (list_sum (map (cost d' G) ys))
+               end
+  end.
+Definition graph_bound (d : nat) (G : graph) : nat := fold_right (fun e m => Nat.max (cost d G (fst e)) m) 1%nat G.
+Definition walk_fuel (G : graph) : nat := graph_bound (length G) G.
 
 (* ------------------------------------------------------------------ *)
 (* the bridge predicate *)
